@@ -10,7 +10,7 @@
    nesting depth — so the theorems above quantify over exactly the trees the parser can produce. *)
 From Verif Require Import Spec.DocDomain Base.Str Base.Outcome Model.Ast Model.Token Model.Parser Model.Listener
   Spec.Sem Proofs.ListenerSem Proofs.ListenerFile Proofs.ParserShape Proofs.ParserComplete Model.Lexer Model.Transform Proofs.LexRender
-  Proofs.DeclRoundTrip Proofs.DocLex Proofs.DocParse Proofs.DocNatural Proofs.DocChars Proofs.DocSem Proofs.DocRoundTrip Proofs.LexPartition Proofs.DocLayout.
+  Proofs.DeclRoundTrip Proofs.DocLex Proofs.DocParse Proofs.DocNatural Proofs.DocChars Proofs.DocSem Proofs.DocRoundTrip Proofs.LexPartition Proofs.DocLayout Proofs.PrepassText Proofs.LayoutPrepass Proofs.DocLayoutPrepass.
 
 (* 1. a non-leading operand (a rewrite or a parenthesised group, nested to any depth) appends exactly its
       denotation and leaves the pending operator, the restrictions and the rewrite stack as they were *)
@@ -112,3 +112,21 @@ Proof. exact every_layout_accepted. Qed.
 Theorem C03_every_layout_decidable : forall w n m, layout_okb w n m = true ->
   exists exts md, dsl_to_model (layout_text w n m ++ [10]) = DOk (canonical m) exts md.
 Proof. exact every_layout_decidable. Qed.
+
+(* 13. NO HYPOTHESIS ABOUT THE PRE-PASS LEFT: for every re-layout [L] whose line breaks hold no blank directly in front of a
+       line feed ([nl_clean]: blank lines are empty), the text of [L] followed by a line feed is accepted and yields exactly the
+       model written.  (Proofs/PrepassText.prepass_id: the pre-pass is the identity on a text without a blank or line feed in
+       front of '#' and without a blank in front of a line feed; Proofs/LayoutPrepass.v: fitting tokens in which '#' only
+       follows a name make such a text; Proofs/DocLayoutPrepass.good_doc: the canonical tokens are such a sequence.) *)
+Theorem C03_every_clean_layout_yields_the_model_written : forall v ts L,
+  std_version v = true -> Forall type_lex_ok ts -> Forall type_ok ts -> distinct_decls (doc_file v ts) ->
+  Forall2 relay (kts (ctoks_doc v ts)) L -> nl_clean L ->
+  exists exts md, dsl_to_model (concat (map snd L) ++ [10]) = DOk (sem_file (doc_file v ts)) exts md.
+Proof. exact every_clean_layout_accepted. Qed.
+
+(* 14. for the document of a covered model (decidable: [model_okb]), written with ANY run [w] of blanks and tabs for every blank
+       and ANY line break [n] without a blank in front of a line feed for every line break *)
+Theorem C03_every_clean_layout_of_a_printed_model : forall w n m,
+  model_okb m = true -> ws_run w = true -> nl_text n = true -> haspair 32 10 n = false ->
+  exists exts md, dsl_to_model (layout_text w n m ++ [10]) = DOk (canonical m) exts md.
+Proof. exact every_clean_layout_of_a_printed_model. Qed.
